@@ -146,8 +146,12 @@ function sameRewrite(rng, env, holder, fresh) {
       const c = allSlots(env, holder).filter((s) => head(s.node) === "ref");
       if (!c.length) return null;
       const s = rng.pick(c); const name = "Nal" + (fresh.n++);
-      env.push([name, rng.chance(1, 3) ? [A("desc"), "doc", [A("ref"), s.node[1]]] : [A("ref"), s.node[1]]]);
-      s.set([A("ref"), name]); return "alias";
+      const target = s.node[1];
+      env.push([name, rng.chance(1, 3) ? [A("desc"), "doc", [A("ref"), target]] : [A("ref"), target]]);
+      // (often every reference to the target goes through the new name: an alias used more than once in one type)
+      const all = rng.chance(1, 2);
+      for (const o of c) if (o === s || (all && o.node[1] === target)) o.set([A("ref"), name]);
+      return "alias";
     }
     case 4: { // extract a subtree into a named type
       const c = allSlots(env, holder).filter((s) => head(s.node) !== "opt");
@@ -234,15 +238,19 @@ export function makeRunner(rt_, mode) {
     const bad = new Set();
     const side = (env, rt) => {
       const parser = cg.buildParserFromRuntype(buildEnv(env, rt).rt, "T", false);
-      let d;
+      let d, h32 = null;
       try { d = parser.hash256(); } catch (e) { d = null; bad.add("c13.hash-throws"); }
+      try { h32 = parser.hash(); } catch (e) { bad.add("c13.hash32-throws"); }
       let bits = "";
       for (const v of valsSx) { try { bits += parser.validate(decVal(v)) ? "1" : "0"; } catch (e) { bits += "T"; bad.add("c03.throw"); } }
-      return { d, bits };
+      return { d, bits, h32 };
     };
     const a = side(env1, rt1), b = side(env2, rt2);
     for (const x of [a, b]) if (x.d != null && !/^[0-9a-f]{64}$/.test(x.d)) bad.add("c13.format");
     if (a.d != null && a.d === b.d && a.bits !== b.bits) bad.add("c13.collision");
+    // the 32-bit hash: equal for types that differ only in property order, alias boundaries or comments
+    const script = req[2].map((x) => x.s);
+    if (kindA.s === "same" && script.every((k) => ["prop-order", "desc", "alias", "inline", "extract"].includes(k)) && a.h32 !== b.h32) bad.add("c13.same32");
     if (kindA.s === "same") {
       if (a.d !== b.d) bad.add("c13.same");
       if (a.bits !== b.bits) bad.add("c13.same-validate");
